@@ -178,7 +178,18 @@ def classifier_clause(model, rep, funcs):
         from ..domains.terms import T as _T, TermDomain as _TD, callee_name as _cn
         from ..absint import Const as _C
         SELF = _T("param", ("self",))
-        img, msk, nimg = _T("attr", (SELF, "_image")), _T("attr", (SELF, "_mask")), _T("attr", (SELF, "_n_image"))
+        # private attribute names are taken from __init__: the one assigned the stack, the mask, and `<stack>.shape[0]`
+        names_ = {"img": "_image", "msk": "_mask", "n": "_n_image"}
+        ini_ = funcs.get(C + "__init__")
+        if ini_ is not None:
+            for st_ in ast.walk(ini_.node):
+                if isinstance(st_, ast.Assign) and len(st_.targets) == 1 and isinstance(st_.targets[0], ast.Attribute) and norm_src(st_.targets[0].value) == "self":
+                    v_ = norm_src(st_.value)
+                    if v_ in ("image_stack.shape[0]", "len(image_stack)"):
+                        names_["n"] = st_.targets[0].attr
+                    elif v_ == "image_stack":
+                        names_["img"] = st_.targets[0].attr
+        img, msk, nimg = _T("attr", (SELF, names_["img"])), _T("attr", (SELF, names_["msk"])), _T("attr", (SELF, names_["n"]))
         ok, det_ = True, []
         for flag in (True, False):
             out = Interp(model, _TD(), depth=1).run(h, args={"mask": _C(flag)}, self_val=SELF)
@@ -195,7 +206,10 @@ def classifier_clause(model, rep, funcs):
     if i is not None:
         s = norm_src(i.node)
         rep.instance("SLOT.pca", i.loc())
-        ok = "self._n_image = image_stack.shape[0]" in s and "KMeans(n_clusters=n_clusters, random_state=seed" in s and "PCA(n_components=n_components)" in s
+        MI_ = Matcher(i)
+        n_ok = any(isinstance(st_, ast.Assign) and len(st_.targets) == 1 and isinstance(st_.targets[0], ast.Attribute) and norm_src(st_.targets[0].value) == "self" and
+                   norm_src(st_.value) in ("image_stack.shape[0]", "len(image_stack)") for st_ in ast.walk(i.node))
+        ok = n_ok and MI_.has("KMeans(n_clusters=n_clusters, random_state=seed, ...)") and MI_.has("PCA(n_components=n_components)")
         rep.ob("SLOT", i.anchor, "number of images is the first axis of the stack; k-means is seeded from the seed argument", ok, "", node=i.node, fn=i,
                clause="classifier", stmt="def __init__ (PcaClassifier)")
 
